@@ -561,7 +561,10 @@ def main():
     if checker_errors:
         for e in checker_errors:
             print("CHECKER-ERROR:", e)
-        sys.exit(3)
+        if not violations:
+            sys.exit(3)
+        # a violation confirmed elsewhere (e.g. by the bounded layer on the real code) is reported even though one
+        # engine failed on this tree: an engine that cannot read changed code must not hide a concrete failing input
     if n_ob == 0 and not bres:
         print("CHECKER-ERROR: no obligations generated")
         sys.exit(3)
